@@ -151,6 +151,19 @@ theorem assign_ascending (n : Nat) (ops : List DsuOp) (hok : OpsOk n ops) (dofnu
   exact ⟨p, out, e, eo, f.isz, f.psz, f.neg, f.rng, f.eq_iff, f.lt_iff, f.surj, f.compressed, ho.ndof⟩
 
 
+/-- **The island numbering depends only on the partition** (merge-order independence).  Two `mj_dsuAssign`
+    results whose merge graphs touch the same trees and have the same connectivity — e.g. the same constraints
+    merged in a different order, or a constraint's incidence given by two different tree lists with the same
+    closure — are identical: same `island` array, same `nisland`. -/
+theorem island_numbering_unique {E E' : List (Nat × Nat)} {n : Nat} {out out' : Assign}
+    (s : AssignSpec E n out) (s' : AssignSpec E' n out')
+    (hT : ∀ u, Touched E u ↔ Touched E' u) (hC : ∀ u v, Conn E u v ↔ Conn E' u v) :
+    out.island = out'.island ∧ out.nisland = out'.nisland :=
+  assignSpec_unique s s' hT hC
+
+/-- every class has a smallest tree (so the statements about `IsMinOf` are never vacuous) -/
+theorem exists_smallest_tree (E : List (Nat × Nat)) (a : Nat) : ∃ m, IsMinOf E a m := exists_isMinOf E a
+
 /-! ## the whole of `mj_island` -/
 
 /-- **Islands are the connected components of coupling; index maps** (`maps_inverse`).  For any number of
